@@ -51,6 +51,9 @@ func TestHugeSizeParameters(t *testing.T) {
 		{"RsaSsaPss/modulus_bits", func(x int) (key.Parameters, error) {
 			return rsassapss.NewParameters(rsassapss.ParametersValues{ModulusSizeBits: x + 2048, SigHashType: rsassapss.SHA256, MGF1HashType: rsassapss.SHA256, PublicExponent: 65537, SaltLengthBytes: 32}, rsassapss.VariantTink)
 		}},
+		{"RsaSsaPss/salt_length", func(x int) (key.Parameters, error) {
+			return rsassapss.NewParameters(rsassapss.ParametersValues{ModulusSizeBits: 2048, SigHashType: rsassapss.SHA256, MGF1HashType: rsassapss.SHA256, PublicExponent: 65537, SaltLengthBytes: x + 32}, rsassapss.VariantTink)
+		}},
 		{"JwtRsaSsaPkcs1/modulus_bits", func(x int) (key.Parameters, error) {
 			return jwtrsassapkcs1.NewParameters(jwtrsassapkcs1.ParametersOpts{ModulusSizeInBits: x + 2048, PublicExponent: 65537, Algorithm: jwtrsassapkcs1.RS256, KidStrategy: jwtrsassapkcs1.IgnoredKID})
 		}},
